@@ -8,6 +8,14 @@ impl SrtlaConnection {
     /// Register a packet as in-flight. O(1) insert.
     #[inline]
     pub fn register_packet(&mut self, seq: i32, send_time_ms: u64) {
+        // A retransmission of an already-ACKed sequence lands at or below the
+        // cumulative-ACK high-water mark. Lower the mark so the next cumulative
+        // ACK covers it again; otherwise the fast path in `handle_srt_ack`
+        // (which only walks `(highest_acked_seq, ack]`) never retires it and the
+        // in-flight count stays inflated until the next large ACK gap.
+        if seq <= self.highest_acked_seq {
+            self.highest_acked_seq = seq.saturating_sub(1);
+        }
         self.packet_log.insert(seq, send_time_ms);
         self.in_flight_packets = self.packet_log.len() as i32;
     }
